@@ -528,6 +528,9 @@ fn one_history(ctx: &WorkerCtx, rep: &mut WorkerReport, case_seed: u64, blocks: 
 }
 
 pub fn worker(ctx: &WorkerCtx) -> WorkerReport {
+    if ctx.shard == 6 {
+        FORCE_HUGE.store(true, std::sync::atomic::Ordering::Relaxed);
+    }
     let (net, traces) = net_for_shard(ctx.shard);
     crate::setup_env(net, traces);
     let mut rep = WorkerReport::default();
